@@ -6,4 +6,9 @@ PROPS = {
                      "policy; the single-panic placements (hook x panic value x request outcome x extension position x entry point) "
                      "are enumerated completely, multi-panic plans are sampled; non-trivial = a panic fired or more than one "
                      "extension; distinct = distinct (scenario, hook event log) hashes"),
+    "C13": dict(level="exploration", race=False,
+                quick=dict(enum=False, seeds=4000), thorough=dict(enum=False, seconds=300),
+                rule="one evaluation = one generated mutation (2-6 top-level keys, fragments, merged duplicates, nested selections) "
+                     "executed under one deferral/fault plan and one map-order policy; non-trivial = deferred work ran and at least two "
+                     "top-level fields executed; distinct = distinct (scenario, resolver/thunk event log) hashes"),
 }
